@@ -85,18 +85,37 @@ def Pool.measure (p : Pool) : Nat :=
 
 /-! ## Chain
 
-`b` blocks, `m ≥ 1` workers added with `>>` (worker 1 is the source: it fills `n` blocks with the values
-`data` and then calls `Link::Poison()`; workers `2..m` pass every block on after applying `xform j`), then
-`Chain::Wait()`: `CompleteLoop()` adds the `Recycler` (thread `m+1`), joins all threads in order, then drains
-queue 0 until poison.  Queue `j` (capacity `b`) connects thread `j` to thread `j+1`; queue 0 is the lead queue
-(filled with the `b` blocks by `Chain::Start`) and the output of the recycler.  Thread 0 is the user thread. -/
+`b` blocks, `m ≥ 1` workers added with `>>` (stage 0 is the source: it fills blocks with the values `data`
+and then calls `Link::Poison()`; stages `1..m-1` pass every block on after applying `xform`), then
+`Chain::Wait()`: `CompleteLoop()` adds the `Recycler` (stage `m`), joins all threads in order, then drains
+queue 0 until poison.  Queue `i` (capacity `b`) is the input of stage `i`; stage `i < m` writes queue `i+1`,
+the recycler writes queue 0, which `Chain::Start` filled with the `b` blocks.  Thread 0 is the user thread,
+stage `i` is thread `i+1`.
 
-inductive SPC
-  | start
-  | consume
-  | produce (x : Item) (last : Bool)
-  | finished
+Every worker is `for (Link l(position); l; ++l) { body }`; `Link` is modelled operation by operation
+(util/stream/chain.cc:105-155), including the `poisoned_` flag that decides whether `~Link` forwards the poison:
+
+  Link::Init        poisoned_ = false; in_->Consume(current_);                               pc `init`
+  operator++        out_->Produce(current_);                                                 pc `incProduce`
+                    in_->Consume(current_);                                                  pc `incConsume`
+                    if (!current_) { poisoned_ = true; out_->Produce(current_); }            pc `incPoison`
+  Link::Poison      current_.SetToPoison(); out_->Produce(current_); poisoned_ = true;       pc `poisonCall`
+  Link::~Link       if (current_) {message} else if (!poisoned_) out_->Produce(current_);    pc `dtor`
+-/
+
+inductive LPC | start | init | incProduce | incConsume | incPoison | poisonCall | dtor | finished
   deriving DecidableEq, Repr, Inhabited
+
+structure Stage where
+  pc       : LPC := .start
+  /-- `Link::current_` (a default `Block` is null = poison) -/
+  cur      : Item := .poison
+  /-- `Link::poisoned_` -/
+  poisoned : Bool := true
+  /-- ghost: everything this stage has consumed / produced, in order -/
+  inp      : List Item := []
+  out      : List Item := []
+  deriving Repr, Inhabited
 
 inductive MPC
   | fill (k : Nat)      -- `Chain::Start`: k blocks still to put into queue 0
@@ -106,104 +125,141 @@ inductive MPC
   | finished
   deriving DecidableEq, Repr, Inhabited
 
-/-- what pass-through worker `j` does to the content of a block -/
+/-- what pass-through worker with thread id `j` does to the content of a block -/
 def xform (j : Nat) (c : Nat) : Nat := c * 10 + j
 
+def upd {α : Type} (f : Nat → α) (i : Nat) (v : α) : Nat → α := fun j => if j = i then v else f j
+
+/-- the atomic bounded FIFO that `Properties/C17.lean` (`pcqueue_refines_fifo`) shows the semaphore
+implementation to refine: `push` is enabled iff the buffer is not full, `pop` iff it is not empty. -/
+def fifoPush {α : Type} (cap : Nat) (buf : List α) (x : α) : Option (List α) :=
+  if buf.length < cap then some (buf ++ [x]) else none
+
+def fifoPop {α : Type} (buf : List α) : Option (α × List α) :=
+  match buf with
+  | [] => none
+  | x :: rest => some (x, rest)
+
 structure Chain where
-  b      : Nat
-  data   : List Nat
-  /-- queues 0..m -/
-  qs     : List (List Item)
-  main   : MPC
-  /-- stages 1..m+1 (index i ↦ thread i+1) -/
-  spc    : List SPC
-  /-- source: number of data blocks sent so far -/
-  sent   : Nat
-  /-- per stage: contents of the blocks it received, in order -/
-  seen   : List (List Nat)
-  /-- ghost: everything ever pushed into / popped from each queue -/
-  pushed : List (List Item)
-  popped : List (List Item)
-  deriving Repr
+  b       : Nat
+  /-- stages `0..m`; stage `m` is the recycler -/
+  m       : Nat
+  data    : List Nat
+  q       : Nat → List Item
+  main    : MPC
+  st      : Nat → Stage
+  /-- ghost: what `Chain::Wait` has consumed from queue 0 -/
+  drained : List Item
 
 def Chain.init (b m : Nat) (data : List Nat) : Chain :=
-  { b := b, data := data, qs := List.replicate (m + 1) [], main := .fill b,
-    spc := List.replicate (m + 1) .start, sent := 0, seen := List.replicate (m + 1) [],
-    pushed := List.replicate (m + 1) [], popped := List.replicate (m + 1) [] }
+  { b := b, m := m, data := data, q := fun _ => [], main := .fill b, st := fun _ => {}, drained := [] }
 
-def Chain.nstages (c : Chain) : Nat := c.spc.length
+/-- loop body of stage `i` on its `k`-th block with content `v`: `some v'` = pass the block on with content
+`v'`, `none` = call `Link::Poison()` and leave the loop -/
+def Chain.body (c : Chain) (i k v : Nat) : Option Nat :=
+  if i = 0 then c.data[k]?
+  else if i = c.m then some v
+  else some (xform (i + 1) v)
 
-def setQ (qs : List (List Item)) (i : Nat) (q : List Item) : List (List Item) := qs.set i q
+/-- `Link::~Link` -/
+def exitLoop (s : Stage) : Stage :=
+  match s.cur with
+  | .val _ => { s with pc := .finished }
+  | .poison => if s.poisoned then { s with pc := .finished } else { s with pc := .dtor }
 
-def Chain.push (c : Chain) (j : Nat) (x : Item) : Chain :=
-  { c with qs := c.qs.set j ((c.qs.getD j []) ++ [x]), pushed := c.pushed.set j ((c.pushed.getD j []) ++ [x]) }
-
-def Chain.pop (c : Chain) (j : Nat) (x : Item) (rest : List Item) : Chain :=
-  { c with qs := c.qs.set j rest, popped := c.popped.set j ((c.popped.getD j []) ++ [x]) }
-
-/-- stage `i` (0-based; thread `i+1`) reads queue `i` and writes queue `i+1`, the last one writes queue 0 -/
-def Chain.outQ (c : Chain) (i : Nat) : Nat := if i + 1 = c.spc.length then 0 else i + 1
-
-/-- reaction of stage `i` to a consumed item: what it will produce next -/
-def Chain.react (c : Chain) (i : Nat) (x : Item) : SPC × Nat :=
-  match x with
-  | .poison => (.produce .poison true, c.sent)
+/-- the loop condition `l` (operator bool) followed by the body, for the `k`-th block -/
+def Chain.loopTest (c : Chain) (i k : Nat) (s : Stage) : Stage :=
+  match s.cur with
   | .val v =>
-    if i = 0 then
-      match c.data[c.sent]? with
-      | some d => (.produce (.val d) false, c.sent + 1)
-      | none => (.produce .poison true, c.sent)
-    else if i + 1 = c.spc.length then (.produce (.val 0) false, c.sent)
-    else (.produce (.val (xform (i + 1) v)) false, c.sent)
+    match c.body i k v with
+    | some v' => { s with cur := .val v', pc := .incProduce }
+    | none => { s with pc := .poisonCall }
+  | .poison => exitLoop s
+
+/-- queue written by stage `i` -/
+def Chain.outQ (c : Chain) (i : Nat) : Nat := if i = c.m then 0 else i + 1
+
+def Chain.stageStep (c : Chain) (i : Nat) : Option Chain :=
+  let s := c.st i
+  match s.pc with
+  | .start =>
+    -- the threads are created by the user thread after `Chain::Start` has filled queue 0
+    match c.main with
+    | .fill _ => none
+    | _ => some { c with st := upd c.st i { s with pc := .init } }
+  | .init =>
+    match fifoPop (c.q i) with
+    | none => none
+    | some (x, rest) =>
+      let s1 := { s with poisoned := false, cur := x, inp := s.inp ++ [x] }
+      some { c with q := upd c.q i rest, st := upd c.st i (c.loopTest i s.inp.length s1) }
+  | .incProduce =>
+    match fifoPush c.b (c.q (c.outQ i)) s.cur with
+    | none => none
+    | some buf =>
+      some { c with q := upd c.q (c.outQ i) buf, st := upd c.st i { s with pc := .incConsume, out := s.out ++ [s.cur] } }
+  | .incConsume =>
+    match fifoPop (c.q i) with
+    | none => none
+    | some (x, rest) =>
+      let s1 := { s with cur := x, inp := s.inp ++ [x] }
+      let s2 := match x with
+        | .poison => { s1 with poisoned := true, pc := .incPoison }
+        | .val _ => c.loopTest i s.inp.length s1
+      some { c with q := upd c.q i rest, st := upd c.st i s2 }
+  | .incPoison =>
+    match fifoPush c.b (c.q (c.outQ i)) s.cur with
+    | none => none
+    | some buf =>
+      some { c with q := upd c.q (c.outQ i) buf, st := upd c.st i (exitLoop { s with out := s.out ++ [s.cur] }) }
+  | .poisonCall =>
+    match fifoPush c.b (c.q (c.outQ i)) .poison with
+    | none => none
+    | some buf =>
+      some { c with q := upd c.q (c.outQ i) buf,
+                    st := upd c.st i (exitLoop { s with cur := .poison, poisoned := true, out := s.out ++ [.poison] }) }
+  | .dtor =>
+    match fifoPush c.b (c.q (c.outQ i)) s.cur with
+    | none => none
+    | some buf =>
+      some { c with q := upd c.q (c.outQ i) buf, st := upd c.st i { s with pc := .finished, out := s.out ++ [s.cur] } }
+  | .finished => none
+
+def Chain.mainStep (c : Chain) : Option Chain :=
+  match c.main with
+  | .fill (k + 1) =>
+    match fifoPush c.b (c.q 0) (.val 0) with
+    | none => none
+    | some buf => some { c with q := upd c.q 0 buf, main := if k = 0 then .join 1 else .fill k }
+  | .fill 0 => some { c with main := .join 1 }
+  | .join i =>
+    match (c.st (i - 1)).pc with
+    | .finished => some { c with main := if i = c.m + 1 then .drain 0 else .join (i + 1) }
+    | _ => none
+  | .drain k =>
+    match fifoPop (c.q 0) with
+    | none => none
+    | some (.poison, rest) => some { c with q := upd c.q 0 rest, drained := c.drained ++ [.poison], main := .finished }
+    | some (.val v, rest) =>
+      some { c with q := upd c.q 0 rest, drained := c.drained ++ [.val v],
+                    main := if k = c.b then .aborted else .drain (k + 1) }
+  | _ => none
 
 def Chain.step (c : Chain) (tid : Nat) : Option Chain :=
   match tid with
-  | 0 =>
-    match c.main with
-    | .fill (k + 1) =>
-      if (c.qs.getD 0 []).length < c.b then
-        some { c.push 0 (.val 0) with main := if k = 0 then .join 1 else .fill k }
-      else none
-    | .fill 0 => some { c with main := .join 1 }
-    | .join i =>
-      match c.spc[i - 1]? with
-      | some .finished => some { c with main := if i = c.spc.length then .drain 0 else .join (i + 1) }
-      | _ => none
-    | .drain k =>
-      match c.qs.getD 0 [] with
-      | [] => none
-      | .poison :: rest => some { c.pop 0 .poison rest with main := .finished }
-      | .val v :: rest =>
-        some { c.pop 0 (.val v) rest with main := if k + 1 = c.b + 1 then .aborted else .drain (k + 1) }
-    | _ => none
-  | i + 1 =>
-    match c.spc[i]? with
-    | some .start =>
-      -- the threads are created by the user thread after `Chain::Start` has filled queue 0
-      match c.main with
-      | .fill _ => none
-      | _ => some { c with spc := c.spc.set i .consume }
-    | some .consume =>
-      match c.qs.getD i [] with
-      | [] => none
-      | x :: rest =>
-        let c1 := c.pop i x rest
-        let (pc, sent) := c.react i x
-        let seen := match x with
-          | .val v => c.seen.set i ((c.seen.getD i []) ++ [v])
-          | .poison => c.seen
-        some { c1 with spc := c.spc.set i pc, sent := sent, seen := seen }
-    | some (.produce x last) =>
-      let j := c.outQ i
-      if (c.qs.getD j []).length < c.b then
-        some { c.push j x with spc := c.spc.set i (if last then .finished else .consume) }
-      else none
-    | _ => none
+  | 0 => c.mainStep
+  | i + 1 => if i ≤ c.m then c.stageStep i else none
 
 def Chain.enabledSet (c : Chain) : List Nat :=
-  (List.range (c.spc.length + 1)).filter (fun t => (c.step t).isSome)
+  (List.range (c.m + 2)).filter (fun t => (c.step t).isSome)
 
-def Chain.allDone (c : Chain) : Bool := c.main == .finished && c.spc.all (· == .finished)
+def Chain.stagesDone (c : Chain) : Bool := (List.range (c.m + 1)).all (fun i => (c.st i).pc == .finished)
+
+def Chain.allDone (c : Chain) : Bool := c.main == .finished && c.stagesDone
+
+/-- contents of the blocks stage `i` received, in order -/
+def Chain.seen (c : Chain) (i : Nat) : List Nat :=
+  (c.st i).inp.filterMap fun x => match x with | .val v => some v | .poison => none
 
 inductive Chain.Reach (c0 : Chain) : Chain → Prop
   | init : Chain.Reach c0 c0
